@@ -107,6 +107,10 @@ func (p *Unsubscribe) UnmarshalBinary(data []byte) error {
 	for {
 		var f wstring
 		b.get(&f)
+		if b.err != nil {
+			// b.i no longer advances, the loop would never end
+			return b.err
+		}
 		p.filters = append(p.filters, f)
 		if b.i == len(data) {
 			break
